@@ -106,6 +106,12 @@ func Catalogue(prop, tier string) []Cfg {
 	case "C01", "C02", "C07":
 		prioCore()
 		scripts()
+		if prop == "C07" {
+			// a legal custom divider must not make the discipline report an error
+			add(pc("v2", []uint{2, 1}, 4, "stray", []int{3}, []int{3, 2}, "rr", "preclosed"))
+			add(pc("v1", []uint{2, 1}, 4, "stray", []int{3}, []int{3, 2}, "rr", "preclosed"))
+			add(pc("s2", []uint{2, 1}, 3, "stray", []int{3}, []int{3, 2}, "", ""))
+		}
 		if prop == "C01" {
 			// endless inputs: capacity over runs of unbounded length (closed state graph)
 			add(pc("v2", []uint{2, 1}, 2, "fair", []int{1}, []int{0}, "rr", "endless"))
@@ -113,6 +119,16 @@ func Catalogue(prop, tier string) []Cfg {
 			add(pc("v2", []uint{3, 2, 1}, 3, "low", []int{1}, []int{0}, "rr", "endless"))
 			add(pc("v1", []uint{2, 1}, 2, "rate", []int{1}, []int{0}, "rr", "endless"))
 			add(pc("s2", []uint{2, 1}, 2, "fair", []int{1}, []int{0}, "", "endless"))
+			// a sum-preserving custom divider that also writes an entry for a priority without an input
+			add(pc("v2", []uint{2, 1}, 4, "stray", []int{1}, []int{0}, "rr", "endless"))
+			add(pc("v1", []uint{2, 1}, 4, "stray", []int{1}, []int{0}, "rr", "endless"))
+			add(pc("v2", []uint{2, 1}, 3, "stray", []int{3}, []int{3, 2}, "rr", "preclosed"))
+			add(pc("s2", []uint{2, 1}, 3, "stray", []int{3}, []int{3, 2}, "", ""))
+			// a divider that ignores the list it is given (fixed table incl. a priority without input)
+			add(pc("v2", []uint{2, 1}, 4, "table", []int{1}, []int{0}, "rr", "endless"))
+			add(pc("v2", []uint{2, 1}, 6, "table", []int{1}, []int{0}, "rr", "endless"))
+			add(pc("v1", []uint{2, 1}, 4, "table", []int{1}, []int{0}, "rr", "endless"))
+			add(pc("s2", []uint{2, 1}, 4, "table", []int{1}, []int{0}, "", "endless"))
 		}
 	case "C19":
 		// every way of terminating, every discipline
@@ -158,6 +174,10 @@ func Catalogue(prop, tier string) []Cfg {
 		} {
 			add(pc(e.d, e.p, e.h, e.div, []int{1}, []int{0}, e.env, "endless"))
 		}
+		// priority values at the top of the type
+		add(pc("v2", []uint{1<<64 - 1, 1}, 3, "fair", []int{1}, []int{0}, "rr", "endless"))
+		add(pc("v2", []uint{1 << 63, 5, 1}, 4, "fair", []int{1}, []int{0}, "rr", "endless"))
+		add(pc("v1", []uint{1<<64 - 1, 1 << 62}, 3, "fair", []int{1}, []int{0}, "rr", "endless"))
 		if !quick {
 			add(pc("v2", []uint{3, 2, 1}, 6, "rate", []int{2}, []int{0}, "rr", "endless"))
 			add(pc("v2", []uint{5, 3, 1}, 5, "rate", []int{1}, []int{0}, "rr", "endless"))
@@ -251,6 +271,11 @@ func Catalogue(prop, tier string) []Cfg {
 			c.Fault = true
 			add(c)
 		}
+		// divider contract with priority values at the top of the type (no fault needed)
+		for _, d := range []string{"v2", "v1"} {
+			add(pc(d, []uint{1<<64 - 1, 1}, 3, "fair", []int{2}, []int{2, 1}, "rr", "preclosed"))
+			add(pc(d, []uint{1 << 63, 1<<63 - 1, 7}, 4, "fair", []int{1}, []int{1}, "rr", "preclosed"))
+		}
 		c := pc("s2", []uint{2, 1}, 2, "fair", []int{2}, []int{2, 1}, "", "")
 		c.Fault = true
 		add(c)
@@ -316,6 +341,15 @@ func Catalogue(prop, tier string) []Cfg {
 				add(jc(disc, 2, true, 2, 5, 0, 0, nil, nil, []int64{0, 1}))
 				add(jc(disc, 2, true, 1, 4, 4, 25, []int64{0, 2}, []int64{0}, []int64{0, 6}))
 				add(jc(disc, 3, true, 0, 5, 4, 50, []int64{0, 5}, []int64{0}, []int64{0, 5}))
+			}
+			// unite, producer reusing two blocks over an unbuffered input (legal: see join.go)
+			for _, j := range []int{1, 2} {
+				r := jc("unite2", j, false, 0, 6, 0, 0, nil, nil, nil)
+				r.Mode = "reuse"
+				add(r)
+				r = jc("unite2", j, false, 0, 5, 4, 25, []int64{0, 5}, []int64{0, 3}, nil)
+				r.Mode = "reuse"
+				add(r)
 			}
 			c := jc("join2", 2, true, 1, 3, 4, 25, []int64{0, 5}, []int64{0}, []int64{0, 5})
 			c.Late, c.Horizon = 1, 30
@@ -548,6 +582,16 @@ func Catalogue(prop, tier string) []Cfg {
 				x.N = []int{3}
 			}
 			add(x)
+			if disc == "unite2" {
+				// input slices with spare capacity that holds later, still pending input
+				for _, fl := range []int{1, 2} {
+					for _, nocopy := range []bool{false, true} {
+						for _, j := range []int{3, 4} {
+							add(Cfg{Harness: "join", Disc: disc, J: j, NoCopy: nocopy, Cap: []int{1}, N: []int{8}, Lens: []int{fl}, Mode: "interleave", Bound: -1})
+						}
+					}
+				}
+			}
 			// timed: timeouts fire while the consumer is slow / the output buffer is full
 			for _, nocopy := range []bool{false, true} {
 				c := Cfg{Harness: "join", Disc: disc, J: 3, NoCopy: nocopy, Cap: []int{0}, N: []int{5}, Timeout: 4, Inacc: 25, Pauses: []int64{0, 5}, Delays: []int64{0, 9}, Bound: -1}
